@@ -179,12 +179,20 @@ def getitem(eng, base, idx):
     if isinstance(base, NArr):
         from . import narr
 
+        if isinstance(idx, SArr) and base.ndim == 1 and not hasattr(idx, "__pyvc_getitem__"):  # (was: unsupported "index SArr")
+            from . import stock_np
+
+            b = stock_np._as_sarr(base)
+            if b is not None:
+                return getitem(eng, b, idx)
         return narr.getitem(eng, base, idx)
     if hasattr(base, "__pyvc_getitem__"):
         return base.__pyvc_getitem__(eng, idx)
     if isinstance(idx, tuple) and len(idx) == 2 and type(base) in (SArr, SView) and any(x is None for x in idx) and any(isinstance(x, slice) and x == slice(None) for x in idx):
         used(eng, "a[:, None] / a[None, :] of a 1-D array: the (n,1) column / (1,n) row holding the same entries")
         return S2Arr([base.arr], base.n, base.kind, transposed=idx[0] is None)
+    if hasattr(idx, "materialize") and type(idx).__name__ == "FirstTrue":  # a[np.nonzero(mask)[0]]
+        idx = idx.materialize(eng)
     if isinstance(idx, SArr):
         if idx.kind == "bool":
             return mask_filter(eng, base, idx)
@@ -348,9 +356,15 @@ def setitem(eng, base, idx, val):
     if hasattr(base, "__pyvc_setitem__"):
         return base.__pyvc_setitem__(eng, idx, val)
     check_frame(eng, base)
+    if hasattr(idx, "materialize") and type(idx).__name__ == "FirstTrue":  # a[np.nonzero(mask)[0]] = ...
+        idx = idx.materialize(eng)
     if isinstance(idx, (SArr, NArr, PList)) and getattr(base, "view_of", None) is None and kind_of(val) is not None:
         return _vector_store(eng, base, idx, val)
     if isinstance(idx, (SArr, slice, PList)):
+        from . import stock_np
+
+        if not isinstance(idx, slice) and stock_np.scatter(eng, base, idx, val):  # a[index array] = value array (last resort)
+            return
         raise Unsupported("vector store into a symbolic array")
     iz = norm_index(eng, idx, base.n, "array store")
     vz = to_z3(val, base.kind) if not (base.kind == "int" and kind_of(val) == "real") else None
@@ -948,6 +962,9 @@ def _np_full_like(eng, args, kwargs):
     used(eng, "np.full_like")
     a = args[0]
     fv = kwargs.get("fill_value", args[1] if len(args) > 1 else None)
+    dt = kwargs.get("dtype")
+    if dt is not None and kind_of_dtype(dt) != a.kind:
+        raise Unsupported("np.full_like with a dtype of another kind")  # (was: dtype silently ignored) -> pyvc/stock_np.py casts the fill value
     if isinstance(a, NArr):
         return NArr(a.shape, [fv] * len(a.items), a.kind, a.dtype)
     k = a.kind
@@ -955,11 +972,11 @@ def _np_full_like(eng, args, kwargs):
 
 
 def _np_ones_like(eng, args, kwargs):
-    return _np_full_like(eng, [args[0], 1], {})
+    return _np_full_like(eng, [args[0], 1], {k: v for k, v in kwargs.items() if k == "dtype"})
 
 
 def _np_zeros_like(eng, args, kwargs):
-    return _np_full_like(eng, [args[0], 0], {})
+    return _np_full_like(eng, [args[0], 0], {k: v for k, v in kwargs.items() if k == "dtype"})
 
 
 def _np_array(eng, args, kwargs):
@@ -1919,9 +1936,25 @@ class FirstTrue:
     def __init__(self, mask):
         self.mask = mask
 
+    def materialize(self, eng):
+        """the whole position array (pyvc/stock_np.py: np.flatnonzero), for every use but `[0]`"""
+        if getattr(self, "_all", None) is None:
+            from . import stock_np
+
+            self._all = stock_np._np_flatnonzero(eng, [self.mask], {})
+        return self._all
+
+    def __pyvc_getattr__(self, eng, name):
+        return eng.models.method_of(eng, self.materialize(eng), name)
+
+    def __pyvc_sequence__(self, eng):
+        from .models import as_sequence
+
+        return as_sequence(eng, self.materialize(eng))
+
     def __pyvc_getitem__(self, eng, idx):
-        if idx != 0:
-            raise Unsupported("np.nonzero(...)[0][k] for k != 0")
+        if not (isinstance(idx, int) and not isinstance(idx, bool) and idx == 0):
+            return getitem(eng, self.materialize(eng), idx)
         m = self.mask
         j = z3.Int(fresh_name("j"))
         if not eng.spec_mode:
